@@ -3202,6 +3202,15 @@ static Type check_statement_impl(TypeChecker *tc, ASTNode *stmt) {
                 }
             }
             
+            /* A function-typed variable carries its declared signature (as function-typed
+             * parameters do), so that a call through it has the declared return type */
+            if (!type_info && declared_type == TYPE_FUNCTION && stmt->as.let.fn_sig) {
+                type_info = malloc(sizeof(TypeInfo));
+                memset(type_info, 0, sizeof(TypeInfo));
+                type_info->base_type = TYPE_FUNCTION;
+                type_info->fn_sig = stmt->as.let.fn_sig;
+            }
+
             /* Add to environment */
             /* Use declared_type which has been corrected for unions and enums */
             Type env_type = declared_type;
